@@ -702,7 +702,10 @@ func c05GenOKVs(rng *h.Rng, odd bool, max int, sh *c05Shapes) []c05Okv {
 		if rng.Chance(40) {
 			k = rng.Intn(6)
 		}
-		out = append(out, c05Okv{k, c05GenAnyV(rng, odd, 2, true, sh)})
+		// a service-name attribute (keys 0..4) always carries a value here: `val.Value.Value` in otlpGetServiceNames
+		// still dereferences it (placed in the model as derefRaw), but that function is being rewritten by the C06
+		// fixes, so the correspondence does not pin its behaviour for an absent value
+		out = append(out, c05Okv{k, c05GenAnyV(rng, odd, 2, k >= 5, sh)})
 	}
 	return out
 }
